@@ -17,6 +17,8 @@ open AnyTLS.Drv
 
 structure DrvState where
   sess : Option MNode := none
+  /-- after a `room` op (a transport with partial back-pressure) the rest of the case is oracle-only -/
+  sessSkip : Bool := false
   pipe : Option MPipe := none
   dns : AnyTLS.DnsCache := []
   proc : Option MProc := none
@@ -31,9 +33,11 @@ def sessLine (st : DrvState) (toks : List String) : DrvState × String :=
   match toks with
   | "reset" :: rest =>
     match nodeReset rest with
-    | some (n, o) => ({ st with sess := some n }, o)
-    | none => ({ st with sess := none }, "reject")
+    | some (n, o) => ({ st with sess := some n, sessSkip := false }, o)
+    | none => ({ st with sess := none, sessSkip := false }, "reject")
+  | "room" :: _ => ({ st with sessSkip := true }, "skip")
   | _ =>
+    if st.sessSkip then (st, "skip") else
     match st.sess with
     | none => (st, "nonode")
     | some n =>
